@@ -110,10 +110,37 @@ type lres struct {
 	panicked string // recovered panic of the call
 }
 
+type callRes struct {
+	err error
+	pnc string
+}
+
+// consume receives from the UNBUFFERED result channel until the callee closes it. If the call returns and the
+// channel is still open (every send of an unbuffered channel has completed by then) the channel was never closed.
+func consume[T any](ch chan T, done chan callRes, conv func(T) int, after func()) (res []int, closed bool, cr callRes) {
+	res = []int{}
+	for {
+		select {
+		case x, ok := <-ch:
+			if !ok {
+				return res, true, <-done
+			}
+			res = append(res, conv(x))
+			after()
+		case cr = <-done:
+			select {
+			case _, ok := <-ch:
+				return res, !ok, cr
+			default:
+				return res, false, cr
+			}
+		}
+	}
+}
+
 // lookup runs q on g with options lo over an UNBUFFERED channel; the consumer yields between receives so that the
 // lookup stays inside its critical section for a while. gate, if non-nil, is called after the first element.
 func lookup(g storage.Graph, q *storeops.Q, lo *storage.LookupOptions, gate func()) (r lres) {
-	r.res = []int{}
 	var s *node.Node
 	var p *predicate.Predicate
 	var o *triple.Object
@@ -125,10 +152,6 @@ func lookup(g storage.Graph, q *storeops.Q, lo *storage.LookupOptions, gate func
 	}
 	if q.O > 0 {
 		o = u.Obj(q.O)
-	}
-	type callRes struct {
-		err error
-		pnc string
 	}
 	done := make(chan callRes, 1)
 	guard := func(f func() error) {
@@ -151,24 +174,16 @@ func lookup(g storage.Graph, q *storeops.Q, lo *storage.LookupOptions, gate func
 		first = false
 		runtime.Gosched()
 	}
-	closedByCallee := false
+	var cr callRes
 	switch q.C {
 	case "o":
 		ch := make(chan *triple.Object)
 		guard(func() error { return g.Objects(ctx, s, p, lo, ch) })
-		for x := range ch {
-			r.res = append(r.res, u.ObjID(x))
-			after()
-		}
-		closedByCallee = true
+		r.res, r.closed, cr = consume(ch, done, u.ObjID, after)
 	case "s":
 		ch := make(chan *node.Node)
 		guard(func() error { return g.Subjects(ctx, p, o, lo, ch) })
-		for x := range ch {
-			r.res = append(r.res, u.NodeID(x))
-			after()
-		}
-		closedByCallee = true
+		r.res, r.closed, cr = consume(ch, done, u.NodeID, after)
 	case "p":
 		ch := make(chan *predicate.Predicate)
 		guard(func() error {
@@ -180,11 +195,7 @@ func lookup(g storage.Graph, q *storeops.Q, lo *storage.LookupOptions, gate func
 			}
 			return g.PredicatesForSubjectAndObject(ctx, s, o, lo, ch)
 		})
-		for x := range ch {
-			r.res = append(r.res, u.PredID(x))
-			after()
-		}
-		closedByCallee = true
+		r.res, r.closed, cr = consume(ch, done, u.PredID, after)
 	default:
 		ch := make(chan *triple.Triple)
 		guard(func() error {
@@ -202,16 +213,8 @@ func lookup(g storage.Graph, q *storeops.Q, lo *storage.LookupOptions, gate func
 			}
 			return g.Triples(ctx, lo, ch)
 		})
-		for x := range ch {
-			r.res = append(r.res, u.TripleID(x))
-			after()
-		}
-		closedByCallee = true
+		r.res, r.closed, cr = consume(ch, done, u.TripleID, after)
 	}
-	// the range above ends only when the channel is closed; a callee that returns without closing leaves us
-	// there, which the run's watchdog reports. A second close panics inside the call (recovered above).
-	cr := <-done
-	r.closed = closedByCallee
 	r.err = cr.err != nil
 	r.panicked = cr.pnc
 	return r
@@ -361,6 +364,11 @@ func perform(run, p int, st storage.Store, h storage.Graph, o op, shared *storag
 			if strings.Contains(r.panicked, "close of closed channel") {
 				e.Ev = "DoubleClose"
 			}
+			extra = append(extra, e)
+		}
+		if !r.closed && r.panicked == "" {
+			e := blank("NeverClosed", run)
+			e.P, e.Q, e.So, e.Info = p, o.q, o.so, fmt.Sprintf("%s returned (error=%v) and left its result channel open", o.q.M, r.err)
 			extra = append(extra, e)
 		}
 		if o.so == 0 && !optsEqual(lo, &snap) {
